@@ -249,7 +249,7 @@ def dedup_histories(execs, proj):
 # TLC
 # ------------------------------------------------------------------------------------------------
 def tlc_cmd(spec, cfg, metadir, workers=1, heap='3g', extra=(), simulate=None):
-    cmd = ['java', '-XX:+UseParallelGC', '-Xmx' + heap, '-Xss16m', '-cp', TLC_CP, 'tlc2.TLC', '-workers', str(workers),
+    cmd = ['java', '-XX:+UseParallelGC', '-Xmx' + heap, '-Xss16m', '-DTLA-Library=' + SPEC, '-cp', TLC_CP, 'tlc2.TLC', '-workers', str(workers),
            '-metadir', metadir, '-config', cfg]
     if simulate:
         cmd += ['-simulate', simulate]
@@ -354,6 +354,9 @@ def _validate_segments(spec_tla, cfg_path, hists, segs, workdir, tag, timeout):
             ci, idxs, starts, path, n = job
             stats['states'] += r['states']
             stats['distinct'] += r['distinct']
+            for site, order in parse_mo_table(r['out']).items():
+                if order != '?':
+                    stats.setdefault('mo', {}).setdefault(site, set()).add(order)
             if r['maxl'] is None:
                 raise InfraError('TLC trace validation failed to run (%s):\n%s' % (tag, r['out'][-3000:]))
             if r['maxl'] >= n + 1:
@@ -391,6 +394,8 @@ def validate_until_clean(spec_tla, cfg_path, hists, workdir, tag, max_rounds=4, 
         rej, tails, st = _validate_segments(spec_tla, cfg_path, hists, segs, workdir, '%s.r%d' % (tag, rnd), timeout)
         for k in ('states', 'distinct', 'events', 'chunks'):
             stats_all[k] += st[k]
+        for site, orders in st.get('mo', {}).items():
+            stats_all.setdefault('mo', {}).setdefault(site, set()).update(orders)
         rejected_all.extend(rej)
         if not tails or len(rejected_all) >= max_rejections:
             stats_all['unexamined'] = sum(len(t) for t in tails)
@@ -628,3 +633,165 @@ def node_stream(ex):
         elif k == 'final':
             out.append({'e': 'final', 't': 0, 'n': '-'})
     return out
+
+
+# ------------------------------------------------------------------------------------------------
+# Level-2 conformance streams (B1) and learnt memory-order tables (B4)
+# ------------------------------------------------------------------------------------------------
+L2_CALLS = {'LockS', 'LockSIX', 'LockX', 'Upgrade', 'Downgrade', 'GetVersion', 'Verify', 'TryLockS', 'TryLockSIX', 'TryLockX',
+            'PrepareRead', 'CVerify'}
+
+
+def l2_stream(ex, cls):
+    """call / atomic operation / return stream of one lock object for <Cls>ImplTrace.
+    Returns (events, ok); ok False when the program uses features outside the Level-2 model."""
+    out = []
+    owning = set()
+    addr2node = {}
+    active = {}          # thread -> True while inside a modelled call
+    ok = True
+    for e in ex.events:
+        k = e.get('e')
+        t = e.get('t', 0)
+        if k == 'alloc' and e.get('cls') == 'N':
+            addr2node[int(e['addr'], 16)] = int(e['n'][1:])
+            out.append({'e': 'alloc', 't': t, 'n': int(e['n'][1:])})
+        elif k == 'free' and e.get('cls') == 'N':
+            out.append({'e': 'free', 't': t, 'n': int(e['n'][1:])})
+        elif k == 'call':
+            op = e['op']
+            if op in L2_CALLS:
+                if e.get('l', 1) not in (1, -1):
+                    ok = False
+                active[t] = op
+                out.append({'e': 'call', 't': t, 'op': op})
+            elif op == 'Destroy':
+                if e['g'] in owning:
+                    active[t] = 'Unlock'
+                    out.append({'e': 'call', 't': t, 'op': 'Unlock'})
+                else:
+                    active[t] = None
+            else:
+                ok = False
+        elif k == 'ret':
+            op = e['op']
+            if op in ('Default', 'Bool', 'XVersion'):
+                continue
+            if op in ('SetVersion', 'Sync', 'MoveCtor', 'MoveAssign'):
+                ok = False
+                continue
+            if op in ('LockS', 'LockSIX', 'LockX', 'PrepareRead') and e.get('b') == 1:
+                owning.add(e['g'])
+            elif op in ('TryLockS', 'TryLockSIX', 'TryLockX', 'Upgrade', 'Downgrade'):
+                owning.discard(e['g'])
+                if e.get('b') == 1:
+                    owning.add(e['h'])
+            elif op == 'Destroy':
+                owning.discard(e['g'])
+            if active.get(t):
+                r = {'e': 'ret', 't': t, 'op': active[t]}
+                for f in ('b', 'r', 'vh', 'vl'):
+                    r[f] = e.get(f, -1)
+                out.append(r)
+            active[t] = None
+        elif k == 'op':
+            if not active.get(t):
+                ok = False
+                continue
+            if e['k'] == 'fence':
+                out.append({'e': 'op', 't': t, 'k': 'fence', 'loc': 0, 'mo': e['mo']})
+                continue
+            ev = {'e': 'op', 't': t, 'k': e['k'], 'mo': e['mo']}
+            if e['cls'] == 'lock':
+                if e['loc'] != 'L1':
+                    ok = False
+                ev['loc'] = 0
+            elif e['cls'] == 'N':
+                ev['loc'] = int(e['loc'].split('+')[0][1:])
+            else:
+                ok = False
+                ev['loc'] = -1
+            ev.update(decode_word(cls, e['a'], addr2node))
+            if cls == 'mcs':
+                ev['bp'] = decode_word(cls, e['b'], addr2node)['p']
+            out.append(ev)
+        elif k == 'texit':
+            out.append({'e': 'texit', 't': t})
+    return out, ok
+
+
+L2_FIELDS = {'pess': ('t', 'op', 'k', 'mo', 'x', 'six', 's'),
+             'opt': ('t', 'op', 'k', 'mo', 'x', 'six', 's', 'vh', 'vl', 'b', 'r'),
+             'mcs': ('t', 'op', 'k', 'mo', 'loc', 'x', 'six', 's', 'p', 'n', 'bp')}
+
+
+def norm_l2(e, cls):
+    o = {'e': e['e']}
+    for f in L2_FIELDS[cls]:
+        o[f] = e.get(f, '-' if f in ('op', 'k', 'mo') else -1)
+    return o
+
+
+def parse_mo_table(tlc_out):
+    """the learnt table printed by <Cls>ImplTrace: <<"MO", [site |-> "order", ...]>>"""
+    m = re.search(r'<<"MO", (.*?)>>\n', tlc_out, re.S)
+    if not m:
+        return {}
+    return dict(re.findall(r'(\w+) \|-> "([\w?]+)"', m.group(1)))
+
+
+def tla_value(v):
+    if isinstance(v, bool):
+        return 'TRUE' if v else 'FALSE'
+    if isinstance(v, int):
+        return str(v)
+    if isinstance(v, str):
+        return v            # already TLA+ text
+    if isinstance(v, (set, frozenset, list, tuple)) and not isinstance(v, str):
+        return '{' + ', '.join(tla_value(x) for x in sorted(v)) + '}'
+    raise ValueError(v)
+
+
+def model_check(module, tag, consts, defs=None, invariants=(), properties=(), spec='Spec', constraint=None, workers=8,
+                heap='8g', timeout=1500, workdir=None, deadlock=False, extra=()):
+    """Generate MC_<tag>.tla / .cfg extending `module` and run TLC.  consts: name -> TLA+ text or python value;
+    defs: operator definitions (text) placed in the MC module, constants may be overridden with '<-'."""
+    workdir = workdir or os.path.join(OUT, 'work', 'mc')
+    os.makedirs(workdir, exist_ok=True)
+    name = 'MC_' + re.sub(r'\W', '_', tag)
+    tla = ['---- MODULE %s ----' % name, 'EXTENDS %s' % module]
+    cfg = ['SPECIFICATION ' + spec, 'CHECK_DEADLOCK ' + ('TRUE' if deadlock else 'FALSE')]
+    cl = []
+    for k, v in consts.items():
+        if isinstance(v, str) and v.startswith('<-'):
+            cl.append('  %s <- %s' % (k, v[2:].strip()))
+        else:
+            cl.append('  %s = %s' % (k, tla_value(v)))
+    for d in (defs or []):
+        tla.append(d)
+    tla.append('====')
+    if cl:
+        cfg.append('CONSTANTS')
+        cfg.extend(cl)
+    for i in invariants:
+        cfg.append('INVARIANT ' + i)
+    for pr in properties:
+        cfg.append('PROPERTY ' + pr)
+    if constraint:
+        cfg.append('CONSTRAINT ' + constraint)
+    tp = os.path.join(workdir, name + '.tla')
+    cp = os.path.join(workdir, name + '.cfg')
+    open(tp, 'w').write('\n'.join(tla) + '\n')
+    open(cp, 'w').write('\n'.join(cfg) + '\n')
+    r = run_tlc(tp, cp, name, workers=workers, heap=heap, timeout=timeout, cwd=workdir, extra=extra)
+    if r['error'] and not r['violated'] and not r['ok']:
+        raise InfraError('TLC failed on %s:\n%s' % (name, r['out'][-3000:]))
+    r['name'] = name
+    return r
+
+
+def mo_def(table, sites_default='sc'):
+    """TLA+ definition of the MO table learnt from the running code; sites never observed get `sites_default`
+    (the strongest order: an unobserved site can then never be blamed)"""
+    items = ['s = "%s" -> "%s"' % (k, sorted(v)[0] if isinstance(v, (set, frozenset)) else v) for k, v in sorted(table.items())]
+    return 'MOlearnt == [s \\in Sites |-> CASE ' + ' [] '.join(items) + ' [] OTHER -> "%s"]' % sites_default
